@@ -32,6 +32,7 @@ LEVELS_B = [-20.0, -17.4, -3.0, -0.35, 0.0, 0.602, 1.7, 3.9, 9.0, 15.0]         
 LINEARS = [1e-18, 4.0e-21, 2.2e-16, 1e-3, 0.5, 1.0, 7.389, 110.0, 1000.0, 1e15]   # positive linear magnitudes
 LEVELS_B_T = LEVELS_B + [-12.0, -1.234, 0.05, 2.2, 6.66, 13.0]
 LINEARS_T = LINEARS + [1e-9, 2.5e-7, 3.16228, 20e-6, 1e6, 4.2e9]
+SUM_PAIRS = []      # level pairs of the spec (LogUnitsGen header), decibels: (a, b, difference defined?)
 SUMS_DB = [(1, 2), (87, 83), (20, 23), (0, 0), (-10, -3), (30, 30), (6.5, 6.4), (-174, -171), (120, 118), (3, 3)]
 
 
@@ -262,11 +263,14 @@ def replay_sum(rec):
     scale = float(A.ev(rec["scale"], tabs))
     alias = rec.get("alias", "distinct")
     nobs = 0
-    for a_db, b_db in SUMS_DB:
-        if rec["sign"] < 0:
-            a_db, b_db = max(a_db, b_db), min(a_db, b_db)
-            if a_db == b_db:
-                continue
+    pairs = list(SUM_PAIRS)
+    if C.tier() == "quick":            # every difference with two seeded base levels; thorough: all pairs
+        rs = random.Random(C.seed() * 31 + zlib.crc32((u + str(rec["sign"]) + alias).encode()))
+        keep = set(rs.sample(sorted({p[0] if p[0] >= p[1] else p[1] for p in pairs}), 2))
+        pairs = [p for p in pairs if max(p[0], p[1]) in keep]
+    for a_db, b_db, subok in pairs + [(a, b, a > b) for a, b in SUMS_DB] + [(b, a, b > a) for a, b in SUMS_DB]:
+        if rec["sign"] < 0 and not subok:
+            continue
         x, y = a_db / 10.0 / scale, b_db / 10.0 / scale
         try:
             if alias == "same_object":            # one quantity on both sides of the operator
@@ -349,6 +353,7 @@ def run(replay=None):
     if not hdr:
         raise C.MachineryError("LogUnitsGen emitted no header record")
     UNCERT[:] = [(k, float(A.ev(t, replay_log.tabs))) for k, t in hdr[0]["uncertainties"]]
+    SUM_PAIRS[:] = [(p["a"][0] / p["a"][1], p["b"][0] / p["b"][1], bool(p["sub"])) for p in hdr[0]["sum_pairs"]]
     # history: a unit environment that declares custom units with the BUILT-IN conversion types was opened and
     # closed earlier in this process; the built-in conversions below must still be the ones of the property
     try:
@@ -425,7 +430,7 @@ def run(replay=None):
                 "rationals, exhaustive); logarithmic: every documented bel-type unit on the lattice ref*10^n, n in -20..20 (TLC, exact), every "
                 "documented pair of sides with all admissible prefixes on the log side and none/m/u/k on the linear side (levels -200..+150 dB, linear magnitudes 1e-21..1e20), fraction forms with "
                 f"{len(RESTS if tier == 'quick' else RESTS_T)} denominators, same-unit and derived dB<->dB pairs, on 9 lattice points and 10-12 off-lattice inputs each, level "
-                "sums and differences in every bel-type unit, also of a quantity with itself and of a sum with itself; single-symbol sources also built as "
+                "sums and differences in every bel-type unit over level pairs whose difference spans 0..200 dB in both orders, also of a quantity with itself and of a sum with itself; single-symbol sources also built as "
                 "x * Unit().<symbol> on one accessor object per process, before and after an in-place .to() on the bare attribute; non-trivial = distinct (pair, input) with different units / distinct log pairs / sums",
         "samples": samples, "exhaustive": True, "classes": classes,
         "tlc": {"temperature": [r1.distinct, r1.violated or "ok"], "log": [r2.distinct, r2.violated or "ok"]},
